@@ -327,3 +327,176 @@ func (c *Ctx) genEnvPipe() vEnvPipe {
 	}
 	return d
 }
+
+// ---------------------------------------------------------------- stream vars.fshist (C11: the file system)
+//
+// Tasks whose `sh:` variables read files (`cat f.txt`, in the task's directory; a global reads g.txt in the root) and whose
+// commands REWRITE those files, run as one sequence through the real executor.  The model (`Vars.World`: histories of
+// compilations and command effects over a world state) mirrors the code: the dynamic-variable cache serves what an
+// earlier compilation read.  The property's monitor (`vars.fsmon`): every call must see what it would see ALONE in the
+// world as it is when the call starts — the current content of the files; a stale cached value is tagged.
+
+type vFsTask struct {
+	Dir    string      `json:"dir"`    // "" | sub
+	Reads  string      `json:"reads"`  // file name read by `V: {sh: cat <file>}`
+	Writes [][2]string `json:"writes"` // commands after the echo: file name (in the task's dir; "g.txt" = the root's), new content
+}
+
+type vFsHist struct {
+	Global bool        `json:"global"` // root `vars: {G: {sh: cat g.txt}}`
+	Files  [][3]string `json:"files"`  // initial files: dir ("" | sub), name, content
+	Tasks  []vFsTask   `json:"tasks"`
+	Seq    []int       `json:"seq"`
+}
+
+func evalFsHist(d vFsHist) []varsLine {
+	base := os.Getenv("VERIF_SCRATCH")
+	if base == "" {
+		base = os.TempDir()
+	}
+	veSeq++
+	dir := filepath.Join(base, fmt.Sprintf("vf%d-%d", os.Getpid(), veSeq))
+	os.MkdirAll(filepath.Join(dir, "sub"), 0o755)
+	defer os.RemoveAll(dir)
+	abs := func(tdir, name string) string {
+		if name == "g.txt" {
+			return filepath.Join(dir, name)
+		}
+		return filepath.Join(dir, tdir, name)
+	}
+	world := map[string]string{}
+	var filesTok []string
+	for _, f := range d.Files {
+		p := abs(f[0], f[1])
+		os.WriteFile(p, []byte(f[2]), 0o644)
+		world[p] = f[2]
+		filesTok = append(filesTok, hx(p)+" "+hx(f[2]))
+	}
+	var y strings.Builder
+	y.WriteString("version: '3'\nsilent: true\n")
+	if d.Global {
+		y.WriteString("vars:\n  G: {sh: cat g.txt}\n")
+	}
+	y.WriteString("tasks:\n")
+	for i, t := range d.Tasks {
+		fmt.Fprintf(&y, "  t%d:\n", i)
+		if t.Dir != "" {
+			fmt.Fprintf(&y, "    dir: %s\n", t.Dir)
+		}
+		fmt.Fprintf(&y, "    vars:\n      V: {sh: cat %s}\n    cmds:\n      - %s\n", t.Reads, varsYamlQ(fmt.Sprintf("echo 'R:t%d:{{.V}}|{{.G}}'", i)))
+		for _, w := range t.Writes {
+			tgt := w[0]
+			if w[0] == "g.txt" {
+				tgt = filepath.Join(dir, "g.txt")
+			}
+			fmt.Fprintf(&y, "      - %s\n", varsYamlQ(fmt.Sprintf("printf '%%s' '%s' > '%s'", w[1], tgt)))
+		}
+	}
+	os.WriteFile(filepath.Join(dir, "Taskfile.yml"), []byte(y.String()), 0o644)
+	var callsTok []string
+	var calls []*task.Call
+	type want struct{ v, g, cachedV, cachedG string }
+	var wants []want
+	firstRead := map[string]string{} // cache key (dir, file) → what the first compilation read
+	for _, ti := range d.Seq {
+		t := d.Tasks[ti]
+		var ws []string
+		for _, w := range t.Writes {
+			ws = append(ws, hx(abs(t.Dir, w[0]))+" "+hx(w[1]))
+		}
+		callsTok = append(callsTok, strings.TrimSpace(fmt.Sprintf("%s %s %d %s", hx(t.Dir), hx(t.Reads), len(t.Writes), strings.Join(ws, " "))))
+		calls = append(calls, &task.Call{Task: fmt.Sprintf("t%d", ti)})
+		// the world as the generator knows it: what the call would read alone, what the cache holds
+		pv, pg := abs(t.Dir, t.Reads), abs("", "g.txt")
+		kv := filepath.Join(dir, t.Dir) + "\x00" + t.Reads
+		if _, ok := firstRead[kv]; !ok {
+			firstRead[kv] = world[pv]
+		}
+		if _, ok := firstRead["G"]; !ok {
+			firstRead["G"] = world[pg]
+		}
+		w := want{v: world[pv], cachedV: firstRead[kv], cachedG: firstRead["G"]}
+		if d.Global {
+			w.g = world[pg]
+		}
+		wants = append(wants, w)
+		for _, wr := range t.Writes {
+			world[abs(t.Dir, wr[0])] = wr[1]
+		}
+	}
+	cl := fmt.Sprintf("vars.fshist %s %s %d %s %d %s", hx(dir), b2s(d.Global), len(d.Files), strings.Join(filesTok, " "), len(d.Seq), strings.Join(callsTok, " "))
+	cl = strings.Join(strings.Fields(cl), " ")
+	var buf strings.Builder
+	e := task.NewExecutor(task.WithDir(dir), task.WithStdout(&buf), task.WithStderr(io.Discard), task.WithSilent(true),
+		task.WithTempDir(task.TempDir{Remote: filepath.Join(dir, ".task"), Fingerprint: filepath.Join(dir, ".task")}))
+	if err := e.Setup(); err != nil {
+		return []varsLine{{cl, "setup-error " + hx(err.Error())}}
+	}
+	rerr := e.Run(context.Background(), calls...)
+	var got [][2]string
+	for _, ln := range strings.Split(strings.TrimRight(buf.String(), "\n"), "\n") {
+		if p := strings.SplitN(ln, ":", 3); len(p) == 3 && p[0] == "R" {
+			vg := strings.SplitN(p[2], "|", 2)
+			if len(vg) == 2 {
+				got = append(got, [2]string{vg[0], vg[1]})
+			}
+		}
+	}
+	if rerr != nil || len(got) != len(d.Seq) {
+		msg := ""
+		if rerr != nil {
+			msg = rerr.Error()
+		}
+		return []varsLine{{cl, fmt.Sprintf("error %d %s", len(got), hx(msg))}}
+	}
+	var vals []string
+	for _, g := range got {
+		vals = append(vals, hx(g[0])+"/"+hx(g[1]))
+	}
+	lines := []varsLine{{cl, strings.Join(vals, " ")}}
+	if os.Getenv("VERIF_VARS_FSMON") != "0" {
+		for i, w := range wants {
+			il := hx(got[i][0]) + "/" + hx(got[i][1])
+			stale := (got[i][0] != w.v && got[i][0] == w.cachedV) || (d.Global && got[i][1] != w.g && got[i][1] == w.cachedG)
+			ok := (got[i][0] == w.v || got[i][0] == w.cachedV) && (!d.Global || got[i][1] == w.g || got[i][1] == w.cachedG)
+			if stale && ok {
+				il += " stale-cache"
+			}
+			lines = append(lines, varsLine{fmt.Sprintf("vars.fsmon %d %s/%s", i, hx(w.v), hx(w.g)), il})
+		}
+	}
+	return lines
+}
+
+func (c *Ctx) genFsHist() vFsHist {
+	r := c.Rng
+	d := vFsHist{Global: r.Intn(2) == 0}
+	names := []string{"f0.txt", "f1.txt"}
+	for _, dd := range []string{"", "sub"} {
+		for i, n := range names {
+			d.Files = append(d.Files, [3]string{dd, n, fmt.Sprintf("i%d%s", i, dd)})
+		}
+	}
+	d.Files = append(d.Files, [3]string{"", "g.txt", "ig"})
+	nt := 2 + r.Intn(3)
+	k := 0
+	for i := 0; i < nt; i++ {
+		t := vFsTask{Reads: names[r.Intn(2)]}
+		if r.Intn(3) == 0 {
+			t.Dir = "sub"
+		}
+		for j := r.Intn(3); j > 0; j-- {
+			tgt := names[r.Intn(2)]
+			if d.Global && r.Intn(3) == 0 {
+				tgt = "g.txt"
+			}
+			t.Writes = append(t.Writes, [2]string{tgt, fmt.Sprintf("w%d", k)})
+			k++
+		}
+		d.Tasks = append(d.Tasks, t)
+	}
+	for i := 2 + r.Intn(4); i > 0; i-- {
+		d.Seq = append(d.Seq, r.Intn(nt))
+	}
+	return d
+}
